@@ -96,6 +96,8 @@ def build_arg(a):
         return a.build_path()
     if isinstance(a, list) and any(hasattr(x, "build_path") for x in a):      # a path as an item of a list argument
         return [x.build_path() if hasattr(x, "build_path") else x for x in a]
+    if isinstance(a, tuple) and any(hasattr(x, "build_path") for x in a):     # ... of a tuple argument (stays a tuple)
+        return tuple(x.build_path() if hasattr(x, "build_path") else x for x in a)
     if isinstance(a, dict) and any(hasattr(x, "build_path") for x in a.values()):
         return {k: (x.build_path() if hasattr(x, "build_path") else x) for k, x in a.items()}
     return a
